@@ -4,8 +4,8 @@ From Coq Require Export List NArith ZArith Lia Bool Arith.
 From Coq Require Import Uint63 Ascii String.
 Export ListNotations.
 
-Definition byte := N.
-Definition str := list byte.
+Notation byte := N (only parsing).
+Notation str := (list N) (only parsing).
 
 Fixpoint str_eqb (a b : str) : bool :=
   match a, b with
